@@ -1022,6 +1022,14 @@ def getattr_value(it, v, name):
         from . import matmodel
 
         return matmodel.mat_attr(it, v, name)
+    if isinstance(v, Shape2D):
+        if name == "T":
+            return Shape2D(v.cols, v.rows)
+        if name == "shape":
+            return (v.rows, v.cols)
+        if name == "ndim":
+            return 2
+        return NOATTR
     if isinstance(v, (int, float)) or is_sym(v):
         if name in ("all", "any"):
             return PyFunc(lambda it_: v, f"scalar.{name}")
@@ -1427,8 +1435,8 @@ def install(it):
     reg("numpy.where", np_where)
     reg("numpy.atleast_2d", np_atleast_2d)
     reg("numpy.atleast_1d", lambda it_, a: a if isinstance(a, Arr) else Arr.new(Vec(1, lambda i: lift(a, "real"), "real")))
-    reg("numpy.vstack", lambda it_, a: Opaque("vstack", a))
-    reg("numpy.hstack", lambda it_, a: Opaque("hstack", a))
+    reg("numpy.vstack", np_vstack)
+    reg("numpy.hstack", np_hstack)
     reg("math.isfinite", lambda it_, v: not isinstance(v, (Inf, NaN)))
     reg("math.log", math_log)
     reg("math.exp", math_exp)
@@ -1515,6 +1523,41 @@ def np_array(it, v, dtype=None):
     if isinstance(v, (Arr,)):
         return Arr.new(v.vec())
     raise Unsupported("np.array")
+
+
+class Shape2D:
+    """a 2-D array of which only the shape is modelled (np.vstack of the collected path)"""
+
+    def __init__(self, rows, cols):
+        self.rows, self.cols = rows, cols
+
+
+def _list_len_and_elem(it, a):
+    v = a.val if isinstance(a, ListCell) else a
+    if isinstance(v, SymList):
+        e = v.f(it.path.int("any_elem"))
+        return v.n, e
+    if isinstance(v, list):
+        return len(v), (v[0] if v else None)
+    raise Unsupported("stack of non-list")
+
+
+def np_vstack(it, a):
+    n, e = _list_len_and_elem(it, a)
+    if isinstance(e, Arr):
+        return Shape2D(n, e.n)
+    elen = getattr(e, "payload", None)
+    if isinstance(e, Opaque) and isinstance(elen, tuple) and elen and elen[0] == "len":
+        return Shape2D(n, elen[1])
+    return Opaque("vstack", a)
+
+
+def np_hstack(it, a):
+    n, e = _list_len_and_elem(it, a)
+    if isinstance(e, (int, float)) or is_sym(e):
+        A = z3.Array(it.path.fresh_name("hstack"), z3.IntSort(), z3.RealSort())
+        return Arr.new(Vec(n, lambda i: z3.Select(A, i if not isinstance(i, int) else z3.IntVal(i)), "real"))
+    return Opaque("hstack", a)
 
 
 def np_logical_not(it, a):
